@@ -20,7 +20,7 @@ Branches whose condition is a compile-time constant (generic colour, const-gener
 `inv` argument of a spliced helper) are pruned by constant folding. Nothing is executed: values are
 expression trees, never concrete board contents.
 """
-from .expr import Builder, N, norm_bin, norm_call, body_info
+from .expr import Builder, N, norm_bin, norm_call, body_info, NEWTYPES
 from .mir import callee_name
 
 INT_W = {"u8": 8, "u16": 16, "u32": 32, "u64": 64, "u128": 128, "usize": 64,
@@ -65,6 +65,7 @@ class Frame:
         self.depth = depth
         self.rets = []
         self.unroll = {}
+        self.loopvars = {}
 
 
 def apath(e):
@@ -126,8 +127,13 @@ def is_memory_place(e):
 
 class FxBuilder(Builder):
     def __init__(self, facts, inline=None, max_depth=8, crates=("owlchess", "owlchess_base"), max_blocks=120,
-                 stop=()):
+                 stop=(), ai_mode=False, invariants=None, agg_watch=()):
         super().__init__(facts)
+        # ai_mode: keep value-changing integer casts, emit ("mk", type, value, site) where a newtype with a
+        # range invariant is constructed, and ("loophead", block, {local: (pre, var)}, site) / backedge finals
+        self.ai_mode = ai_mode
+        self.invariants = invariants or {}
+        self.agg_watch = set(agg_watch)     # struct paths whose construction is an event ("mkagg", path, operands, site)
         self.crates = crates
         self.max_depth = max_depth
         self.max_blocks = max_blocks
@@ -139,8 +145,72 @@ class FxBuilder(Builder):
         self.frames = {}
         self._value_eq = None
         self.discr_domain = {}
+        self.etypes = {}
+        self._serial = 0
         self._tbl_cache = {}
         self._model_nodes = []
+
+    def _initvar(self, fr, l):
+        """Initial (never assigned) value of a local; distinct per inlined frame."""
+        nm = fr.body.names.get(l, "_%d" % l)
+        if fr.depth == 0:
+            return ("var", l, nm)
+        return ("var", l, nm, ("f", fr.id))
+
+    def _havoc(self, l, nm):
+        """A fresh unknown value (each havoc is a distinct expression, so facts learnt about an earlier
+        value of the same local never transfer)."""
+        self._serial += 1
+        return ("var", l, nm, self._serial)
+
+    def operand_type(self, fr, o):
+        if "k" in o:
+            return o["k"].get("ty")
+        p = o.get("c") or o.get("m")
+        return self.place_type(fr, p) if p else None
+
+    def int_range(self, ty):
+        """(lo, hi) of an integer-like type index (None if not integer-like)."""
+        if ty is None:
+            return None
+        t = self.facts.types[ty]
+        k = t["k"]
+        if k == "int":
+            w = t["w"]
+            return (-(1 << (w - 1)), (1 << (w - 1)) - 1) if t["s"] else (0, (1 << w) - 1)
+        if k == "bool":
+            return (0, 1)
+        if k == "char":
+            return (0, 0x10FFFF)
+        return None
+
+    def _widening(self, src, dst):
+        a, b = self.int_range(src), self.int_range(dst)
+        if a is None or b is None:
+            return False
+        return b[0] <= a[0] and a[1] <= b[1]
+
+    def place_type(self, fr, p, inv=False):
+        """Type index of a MIR place. With inv=True the single field of a newtype that carries a range
+        invariant is given the newtype's type (N() makes the wrapper transparent, the invariant stays)."""
+        ty = fr.body.locals[p["l"]]
+        n = len(p["p"])
+        for i, el in enumerate(p["p"]):
+            t = self.facts.types[ty]
+            k = el[0]
+            if k == "deref":
+                ty = t.get("to", ty)
+            elif k == "field":
+                if inv and i == n - 1 and el[3] in self.invariants:
+                    break
+                ty = el[4]
+            elif k in ("index", "cindex"):
+                ty = t.get("of", ty)
+        return ty
+
+    def note_type(self, e, ty):
+        if isinstance(e, tuple) and e and e[0] not in ("const", "agg", "phi", "zst"):
+            self.etypes.setdefault(e, ty)
 
     def default_inline(self, fn):
         return fn.krate in self.crates and len(fn.body.blocks) <= self.max_blocks and fn.def_path not in self.stop
@@ -291,6 +361,41 @@ class FxBuilder(Builder):
                             self._tbl_cache[e[1][1]] = self.facts.table_u64(e[1][1])
                         return ("const", self._tbl_cache[e[1][1]][e[2][1]], "u64")
             return None
+        if k == "field" and e[1][0] == "named" and isinstance(e[2], str) and not e[2].startswith("#"):
+            # field of a named struct constant (e.g. Move::NULL.kind): decode from the evaluated bytes
+            c = self.facts.consts.get(e[1][1])
+            if c is None:
+                return None
+            t = self.facts.types[c["ty"]]
+            if t["k"] != "adt":
+                return None
+            a = self.facts.adts.get(t.get("key")) or self.facts.adts.get(t["path"])
+            if not a or a.get("kind") != "struct" or "offsets" not in a:
+                return None
+            flds = a["variants"][0]["fields"]
+            for i, fl in enumerate(flds):
+                if fl["name"] == e[2]:
+                    ft = self.facts.types[fl["ty"]]
+                    if ft["k"] == "int":
+                        size = ft["w"] // 8
+                    elif ft["k"] == "adt":
+                        fa = self.facts.adts.get(ft.get("key")) or self.facts.adts.get(ft["path"])
+                        size = fa.get("size") if fa else None
+                    elif ft["k"] in ("bool",):
+                        size = 1
+                    else:
+                        size = None
+                    if not size or size > 8:
+                        return None
+                    try:
+                        b, relocs = self.facts.table_bytes(e[1][1])
+                    except Exception:
+                        return None
+                    off = a["offsets"][i]
+                    if relocs or off + size > len(b):
+                        return None
+                    return ("const", int.from_bytes(b[off:off + size], "little"), self.facts.ty_str(fl["ty"]))
+            return None
         if k == "call" and len(e[2]) == 2 and e[1].split("::")[-1] in ("wrapping_add", "wrapping_sub"):
             a = self.fold(e[2][0])
             b = self.fold(e[2][1])
@@ -335,8 +440,12 @@ class FxBuilder(Builder):
         if 1 <= l <= fr.body.argc:
             if fr.env is not None:
                 return fr.env[l - 1]
-            return ("param", l, fr.body.names.get(l, "_%d" % l))
-        return ("var", l, fr.body.names.get(l, "_%d" % l))
+            e = ("param", l, fr.body.names.get(l, "_%d" % l))
+            self.note_type(e, fr.body.locals[l])
+            return e
+        e = self._initvar(fr, l)
+        self.note_type(e, fr.body.locals[l])
+        return e
 
     def version(self, path):
         n = 0
@@ -392,7 +501,7 @@ class FxBuilder(Builder):
         if r[0] == "local":
             fr = self.frames.get(r[1])
             if fr is None:
-                return ("var", r[2], "?")
+                return self._havoc(r[2], "?")
             return self._load_local(fr, pe)
         if is_memory_place(pe):
             return ("ld", self.version(apath(pe)), pe)
@@ -407,20 +516,20 @@ class FxBuilder(Builder):
         if pe[0] == "tbl":
             base = self._load_local(fr, pe[1])
             if base[0] in ("var", "upd"):
-                return ("var", _root(pe)[2], "?")
+                return self._havoc(_root(pe)[2], "?")
             return ("tbl", base, pe[2])
         if pe[0] == "downcast":
             return ("downcast", self._load_local(fr, pe[1]), pe[2])
         if pe[0] == "index":
             return ("index", self._load_local(fr, pe[1]), pe[2])
-        return ("var", _root(pe)[2], "?")
+        return self._havoc(_root(pe)[2], "?")
 
     def _is_newtype_local(self, fr, l):
         t = self.facts.types[fr.body.locals[l]]
         if t["k"] != "adt":
             return False
         a = self.facts.adts.get(t["key"])
-        return bool(a and a["kind"] == "struct" and len(a["variants"][0]["fields"]) == 1 and a["path"] in NEWTYPES_EQ)
+        return bool(a and a["kind"] == "struct" and len(a["variants"][0]["fields"]) == 1 and a["path"] in NEWTYPES)
 
     def _field_of(self, value, name, idx):
         """Field of a local's value that may be a base value with overrides and/or a merge of such."""
@@ -471,7 +580,7 @@ class FxBuilder(Builder):
                 if nm and nodes is not None:
                     nodes.append(("lstore", fr.fn.id, r[2], "%s.%s" % (nm, pe[2]), val, site))
             else:
-                fr.state[r[2]] = ("var", r[2], fr.body.names.get(r[2], "_%d" % r[2]))
+                fr.state[r[2]] = self._havoc(r[2], fr.body.names.get(r[2], "_%d" % r[2]))
             return
         if is_memory_place(pe):
             nodes.append(("store", pe, val, site, self.version(apath(pe))))
@@ -481,7 +590,10 @@ class FxBuilder(Builder):
         pe = self.place_expr(fr, p)
         if as_place:
             return pe
-        return self.load(pe)
+        v = self.load(pe)
+        if self.ai_mode:
+            self.note_type(v, self.place_type(fr, p, inv=True))
+        return v
 
     def ev_operand(self, fr, o):
         if "k" in o:
@@ -516,6 +628,8 @@ class FxBuilder(Builder):
         if k == "cast":
             inner = self.ev_operand(fr, rv[2])
             kind = rv[1].split("(")[0]
+            if self.ai_mode and kind == "IntToInt" and not self._widening(self.operand_type(fr, rv[2]), rv[3]):
+                kind = "IntToIntN"
             return self.simp(N(("cast", kind, inner, self.facts.ty_str(rv[3]))))
         if k == "discr":
             pl = self.ev_place(fr, rv[1])
@@ -600,7 +714,8 @@ class FxBuilder(Builder):
                     fr.unroll[b][0] += 1
                     onstack = onstack - fr.unroll[b][1]
                 else:
-                    nodes.append(("backedge", b, Site(fn, b)))
+                    finals = {l: fr.state[l] for l in fr.loopvars.get(b, ()) if l in fr.state} if self.ai_mode else {}
+                    nodes.append(("backedge", b, Site(fn, b), finals))
                     break
             # loop header: values assigned in the loop are unknown on entry - unless the loop iterates
             # over a literal array, in which case it is unrolled with concrete elements
@@ -609,14 +724,29 @@ class FxBuilder(Builder):
                 if self._is_arrayiter_header(fr, b):
                     fr.unroll[b] = [0, lblocks]
                 else:
-                    for l in assigned:
-                        fr.state[l] = ("var", l, body.names.get(l, "_%d" % l))
+                    lv = {}
+                    for l in sorted(assigned):
+                        pre = fr.state.get(l)
+                        fr.state[l] = self._havoc(l, body.names.get(l, "_%d" % l))
+                        self.note_type(fr.state[l], body.locals[l])
+                        if pre is not None:
+                            lv[l] = (pre, fr.state[l])
+                    if self.ai_mode:
+                        fr.loopvars[b] = sorted(lv)
+                        nodes.append(("loophead", b, lv, Site(fn, b), fr.id))
             onstack = onstack | {b}
             blk = body.blocks[b]
             for si, s in enumerate(blk["stmts"]):
                 if s[0] == "assign":
                     pl, rv = s[1], s[2]
                     val = self.ev_rvalue(fr, rv)
+                    self.note_type(val, self.place_type(fr, pl))
+                    if self.ai_mode and rv[0] == "agg" and rv[1].get("path") in self.invariants and rv[2]:
+                        nodes.append(("mk", rv[1]["path"], self.ev_operand(fr, rv[2][0]), Site(fn, b, si)))
+                    if self.ai_mode and rv[0] == "agg" and rv[1].get("path") in self.agg_watch:
+                        nodes.append(("mkagg", rv[1]["path"], tuple(self.ev_operand(fr, o) for o in rv[2]), Site(fn, b, si)))
+                    if self.ai_mode and rv[0] == "cast" and rv[1].startswith("Transmute"):
+                        nodes.append(("transmute", self.facts.ty_str(rv[3]), self.ev_operand(fr, rv[2]), Site(fn, b, si)))
                     if not pl["p"]:
                         fr.state[pl["l"]] = val
                         nm = body.names.get(pl["l"])
@@ -635,7 +765,7 @@ class FxBuilder(Builder):
                                       self.version(apath(tgt))))
                         self.record_write(tgt)
                     else:
-                        fr.state[s[1]["l"]] = ("var", s[1]["l"], body.names.get(s[1]["l"], ""))
+                        fr.state[s[1]["l"]] = self._havoc(s[1]["l"], body.names.get(s[1]["l"], ""))
             t = blk["term"]
             k = t["k"]
             site = Site(fn, b)
@@ -718,7 +848,7 @@ class FxBuilder(Builder):
                     def dflt(key):
                         if 1 <= key <= body.argc:
                             return fr.env[key - 1] if fr.env is not None else ("param", key, body.names.get(key, "_%d" % key))
-                        return ("var", key, body.names.get(key, "_%d" % key))
+                        return self._initvar(fr, key)
                     for s in states:
                         for key in keys:
                             if key not in s:
@@ -803,7 +933,7 @@ class FxBuilder(Builder):
                 fields[idx] = val
                 fr.state[root] = ("agg", cur[1], cur[2], tuple(fields))
                 return
-        fr.state[root] = ("var", root, fr.body.names.get(root, "_%d" % root))
+        fr.state[root] = self._havoc(root, fr.body.names.get(root, "_%d" % root))
 
     def _call(self, fr, t, site, nodes):
         body = fr.body
@@ -869,10 +999,11 @@ class FxBuilder(Builder):
                     if _root(tgt)[0] == "local":
                         lf = self.frames.get(_root(tgt)[1])
                         if lf is not None:
-                            lf.state[_root(tgt)[2]] = ("var", _root(tgt)[2], lf.body.names.get(_root(tgt)[2], "?"))
+                            lf.state[_root(tgt)[2]] = self._havoc(_root(tgt)[2], lf.body.names.get(_root(tgt)[2], "?"))
                     else:
                         self.record_write(tgt)
         d = t["dest"]
+        self.note_type(ret, self.place_type(fr, d))
         if not d["p"]:
             fr.state[d["l"]] = ret
         else:
